@@ -24,10 +24,11 @@ struct Cfg {
     int kind;                  // 0 read all, 1 read k then close, 2 read k then destroy, 3 write all + close, 4 write all + destroy, 5 open/close no traffic (read), 6 same (write)
     std::vector<long> sizes;   // per object: -1 = CanMessage, -2 = LinMessage2 in its version-1/2 layout (shorter than the class's largest layout), >=0 = AppText with that text length
     uint32_t C; long B; uint32_t Q; int level; bool trailer; int k; bool shipped;
+    bool devfull = false;      // write session whose output device accepts nothing (/dev/full): every write to the medium fails, the calls must still return
     std::string str() const {
         std::ostringstream s; s << "kind=" << kind << " C=" << C << " B=" << B << " Q=" << Q << " level=" << level << " trailer=" << trailer << " k=" << k << " sizes=[";
         for (size_t i = 0; i < sizes.size(); i++) s << (i ? "," : "") << sizes[i];
-        s << "]"; return s.str();
+        s << "]" << (devfull ? " output=/dev/full" : ""); return s.str();
     }
     std::string sizeclass() const {   // coarse class for violation keys
         long mx = -1; for (long x : sizes) mx = std::max(mx, x <= -1000 ? -x - 1000 - 48 : x);   // -1/-2 are fixed-size objects, <= -1000 unknown objects of that declared size
@@ -77,6 +78,7 @@ static Cfg make_cfg(uint64_t seed, long ci) {
         for (size_t i = 0; i < c.sizes.size(); i++) if (r.chance(1, 3)) { long sz = 16 + (long)r.below((uint32_t)std::min<long>(b + c.C, 3000)); c.sizes[i] = -(1000 + sz); }
     int nknown = 0; for (long x : c.sizes) if (x > -1000) nknown++;
     c.k = (c.kind == 1 || c.kind == 2) ? (int)r.below(nknown + 1) : nknown;
+    c.devfull = !reading && c.kind != 6 && (ci / 12) % 4 == 1;
     return c;
 }
 
@@ -182,7 +184,7 @@ static RunOut session(const Cfg & c, const std::string & path, bool controlled, 
             if (c.kind != 2) { f->close(); if (f->is_open() && out.err.empty()) out.err = "is_open after close"; }
         } else {
             f->compressionLevel = c.level; f->writeRestorePoints = c.trailer; f->setDefaultLogContainerSize(c.C);
-            f->open(path.c_str(), std::ios_base::out);
+            f->open(c.devfull ? "/dev/full" : path.c_str(), std::ios_base::out);
             if (!f->is_open()) out.err = "open(out) failed";
             else {
                 for (size_t i = 0; i < c.sizes.size(); i++) f->write(make_object(c, i));
@@ -196,11 +198,11 @@ static RunOut session(const Cfg & c, const std::string & path, bool controlled, 
 }
 
 
-static long g_sessions = 0, g_read = 0, g_write = 0, g_early = 0, g_maxsteps = 0; static uint64_t g_steps = 0; static std::set<uint64_t> * g_sigs = nullptr; static std::map<int, long> * g_kinds = nullptr; static std::string g_sample;
+static long g_devfull = 0; static long g_sessions = 0, g_read = 0, g_write = 0, g_early = 0, g_maxsteps = 0; static uint64_t g_steps = 0; static std::set<uint64_t> * g_sigs = nullptr; static std::map<int, long> * g_kinds = nullptr; static std::string g_sample;
 static void emit_stats() {
     char sites[4096]; sched_site_counts(sites, sizeof sites);
     std::ostringstream s;
-    s << "{\"sessions\":" << g_sessions << ",\"read_sessions\":" << g_read << ",\"write_sessions\":" << g_write << ",\"early_close_sessions\":" << g_early
+    s << "{\"sessions\":" << g_sessions << ",\"read_sessions\":" << g_read << ",\"write_sessions\":" << g_write << ",\"early_close_sessions\":" << g_early << ",\"write_sessions_to_full_device\":" << g_devfull
       << ",\"steps\":" << g_steps << ",\"max_steps\":" << g_maxsteps << ",\"distinct_signatures\":" << (g_sigs ? g_sigs->size() : 0) << ",\"blocked_at\":{" << sites << "},\"kinds\":{";
     bool first = true; if (g_kinds) for (auto & kv : *g_kinds) { s << (first ? "" : ",") << "\"" << kv.first << "\":" << kv.second; first = false; }
     s << "},\"samples\":[" << hc::jstr(g_sample) << "]}";
@@ -233,6 +235,7 @@ int main(int argc, char ** argv) {
                 // uncontrolled reference run: the file every schedule must reproduce byte for byte
                 wd::note(("native reference " + c.str()).c_str());
                 RunOut r0 = session(c, path, false, 0, 0, 0, 0);
+                if (c.devfull) { if (!r0.err.empty()) hc::viol("C07:native-write-session:" + r0.err, c.str()); if (!hc::threads_back_to(base_threads)) hc::viol("C06:thread-left-behind:native:kind" + std::to_string(c.kind), c.str()); goto cfg_done; }
                 ref = twin::load(path);
                 twin::Bytes stream; std::string pe = twin::parse(ref, stream);
                 if (!r0.err.empty()) hc::viol("C07:native-write-session:" + r0.err, c.str());
@@ -245,6 +248,7 @@ int main(int argc, char ** argv) {
                 if (!hc::threads_back_to(base_threads)) hc::viol("C06:thread-left-behind:native:kind" + std::to_string(c.kind), c.str());
             }
         }
+        cfg_done: ;
         int strategy, sparam = 0, spurious = 0;
         switch (si % 8) { case 0: case 1: case 2: strategy = SCHED_RANDOM; break; case 3: strategy = SCHED_PCT; sparam = 1; break; case 4: strategy = SCHED_PCT; sparam = 2; break;
             case 5: strategy = SCHED_PCT; sparam = 3; break; case 6: strategy = SCHED_STARVE; sparam = (int)((si / 8) % 3); break; default: strategy = SCHED_FAVOUR; sparam = (int)((si / 8) % 3); }
@@ -266,6 +270,7 @@ int main(int argc, char ** argv) {
         bool reading = c.kind == 0 || c.kind == 1 || c.kind == 2 || c.kind == 5;
         if (reading) read_sessions++; else write_sessions++;
         if (c.kind == 1 || c.kind == 2) early++;
+        if (c.devfull) g_devfull++;
         if (r.threads_left) hc::viol("C06:thread-left-behind:kind" + std::to_string(c.kind), c.str() + " threads=" + std::to_string(r.threads_left));
         if (!r.err.empty()) {
             std::string e = r.err; for (auto & ch : e) if (ch >= '0' && ch <= '9') ch = 'N';
